@@ -113,18 +113,18 @@ func c13Setup(w *c13World, cfg, rt, rc, topo int, preR bool) (*c13Fix, *c13Conn,
 }
 
 var c13DimNames = map[string][]string{
-	"remote_key_type": {"ed25519(inline ID)", "rsa2048(hashed ID)", "ecdsa(hashed ID)", "secp256k1(inline ID)"},
-	"conn_remote_addr": c13RcNames,
-	"listenAddrs":      {"absent", "mix: 10 classes x suffix{none,/p2p/R,/p2p/O,/p2p/X,/p2p/L} + duplicate + 4 unparsable + bare /p2p/O, /p2p/R"},
-	"signedPeerRecord": c13SrNames,
-	"publicKey":        c13PkNames,
-	"protocols":        {"absent", "few (incl. duplicate, empty string, identify push)"},
-	"agent+observedAddr": {"all absent", "agentVersion + protocolVersion + observed address with /p2p/O suffix"},
+	"remote_key_type":              {"ed25519(inline ID)", "rsa2048(hashed ID)", "ecdsa(hashed ID)", "secp256k1(inline ID)"},
+	"conn_remote_addr":             c13RcNames,
+	"listenAddrs":                  {"absent", "mix: 10 classes x suffix{none,/p2p/R,/p2p/O,/p2p/X,/p2p/L} + duplicate + 4 unparsable + bare /p2p/O, /p2p/R"},
+	"signedPeerRecord":             c13SrNames,
+	"publicKey":                    c13PkNames,
+	"protocols":                    {"absent", "few (incl. duplicate, empty string, identify push)"},
+	"agent+observedAddr":           {"all absent", "agentVersion + protocolVersion + observed address with /p2p/O suffix"},
 	"protocols+agent+observedAddr": {"all absent", "few protocols (incl. duplicate, empty string, identify push) + agent data + unparsable observed address"},
-	"arrives_as":       {"identify response", "identify push"},
-	"connections_to_R": {"one (message on it)", "two (message on the second)"},
-	"R_known_before":   {"no", "yes (addresses of 4 TTL classes, protocols, agent, key)"},
-	"peerstore":        c13PsNames,
+	"arrives_as":                   {"identify response", "identify push"},
+	"connections_to_R":             {"one (message on it)", "two (message on the second)"},
+	"R_known_before":               {"no", "yes (addresses of 4 TTL classes, protocols, agent, key)"},
+	"peerstore":                    c13PsNames,
 }
 
 func c13MsgDims() []c13Dim {
@@ -327,16 +327,16 @@ func c13Named(dims []c13Dim, cs map[string]int) map[string]string {
 // ---------- caps ----------
 
 var c13CapsNames = map[string][]string{
-	"listenAddrs":      {"absent", "600 public addresses", "600 public addresses each with /p2p/R"},
-	"signedPeerRecord": {"absent", "R-valid with 600 public addresses", "R-valid mix (50 addresses)"},
-	"protocols":        {"few", "1324 distinct (cap+300)", "3000 distinct"},
+	"listenAddrs":           {"absent", "600 public addresses", "600 public addresses each with /p2p/R"},
+	"signedPeerRecord":      {"absent", "R-valid with 600 public addresses", "R-valid mix (50 addresses)"},
+	"protocols":             {"few", "1324 distinct (cap+300)", "3000 distinct"},
 	"agent+protocolVersion": {"present", "4000 bytes each"},
-	"conn_remote_addr": c13RcNames,
-	"arrives_as":       {"identify response", "identify push"},
-	"peerstore":        c13PsNames,
-	"R_known_before":   {"no", "yes"},
-	"second_message":   {"none", "a second oversized message with disjoint addresses and protocols"},
-	"consumed":         {"while connected", "after the connection closed and Disconnected was processed"},
+	"conn_remote_addr":      c13RcNames,
+	"arrives_as":            {"identify response", "identify push"},
+	"peerstore":             c13PsNames,
+	"R_known_before":        {"no", "yes"},
+	"second_message":        {"none", "a second oversized message with disjoint addresses and protocols"},
+	"consumed":              {"while connected", "after the connection closed and Disconnected was processed"},
 }
 
 func c13CapsDims() []c13Dim {
